@@ -433,7 +433,31 @@ func TestC19(t *testing.T) {
 				nw := mkNet(ip, rapid.IntRange(0, bits).Draw(rt, "prefix"), false)
 				subtrees = append(subtrees, dt.Seq(gen.GNIP(append(append([]byte{}, nw.IP...), nw.Mask...))))
 			}
-			v.SetExt(gen.OIDExtNC, true, dt.Seq(dt.Cons(2, 0, subtrees...)))
+			nc := []*dt.Node{dt.Cons(2, 0, subtrees...)}
+			// excluded subtrees too: related to a permitted one (its base address as a narrower or a wider
+			// network, the same network) or unrelated - what is permitted is judged on its own
+			if rapid.Bool().Draw(rt, "excluded") {
+				var ex []*dt.Node
+				for i, n := 0, rapid.IntRange(1, 2).Draw(rt, "nex"); i < n; i++ {
+					var nw net.IPNet
+					if rapid.IntRange(0, 3).Draw(rt, "exrel") > 0 {
+						pb := subtrees[rapid.IntRange(0, len(subtrees)-1).Draw(rt, "exof")].Children[0].Content
+						half := len(pb) / 2
+						ip := net.IP(append([]byte{}, pb[:half]...))
+						nw = mkNet(ip, rapid.IntRange(0, half*8).Draw(rt, "exprefix"), false)
+					} else {
+						ip := drawIP(rt)
+						bits := 128
+						if len(ip) == 4 {
+							bits = 32
+						}
+						nw = mkNet(ip, rapid.IntRange(0, bits).Draw(rt, "exprefix2"), false)
+					}
+					ex = append(ex, dt.Seq(gen.GNIP(append(append([]byte{}, nw.IP...), nw.Mask...))))
+				}
+				nc = append(nc, dt.Cons(2, 1, ex...))
+			}
+			v.SetExt(gen.OIDExtNC, true, dt.Seq(nc...))
 		}
 		if pc.SelfSigned {
 			v.SelfSign()
